@@ -68,7 +68,7 @@ type lease4Out struct {
 }
 
 func leaseScenario4(ph1, ph2 []replyTpl) (o lease4Out) {
-	synctest.Test(syncT, func(t *testing.T) {
+	runBubble(func(t *testing.T) {
 		conn := newLabConn()
 		c, err := nclient4.NewWithConn(conn, labHW, nclient4.WithTimeout(100*time.Millisecond), nclient4.WithRetry(1))
 		if err != nil {
@@ -280,7 +280,7 @@ func specLease4(ph1, ph2 []replyTpl) (byte, int) {
 }
 
 func renewRelease(r *Run) {
-	synctest.Test(syncT, func(t *testing.T) {
+	runBubble(func(t *testing.T) {
 		conn := newLabConn()
 		c, _ := nclient4.NewWithConn(conn, labHW, nclient4.WithTimeout(50*time.Millisecond), nclient4.WithRetry(1))
 		yi := net.IP{192, 168, 0, byte(1 + r.Rng.Intn(250))}
@@ -352,7 +352,7 @@ func lease6(r *Run) {
 	var reqWire []byte
 	var res *dhcpv6.Message
 	var resErr error
-	synctest.Test(syncT, func(t *testing.T) {
+	runBubble(func(t *testing.T) {
 		conn := newLabConn()
 		c, _ := nclient6.NewWithConn(conn, labHW, nclient6.WithTimeout(100*time.Millisecond), nclient6.WithRetry(1))
 		mk := func(tp reply6Tpl, req *dhcpv6.Message) []byte {
